@@ -5,7 +5,7 @@ regenerated loop condition), selected / non-zero diffusion channels have a neigh
 (guards regenerated from the sources), allocation state machine without double free / use after free, and the registry
 of every `vector[index]` of the engine sources (a new or changed subscript breaks the build).
 Oracle (the property's own observation point): the engine sources of the working tree are compiled with
--D_GLIBCXX_ASSERTIONS (tier quick and thorough) and with AddressSanitizer + UBSan (a subset in quick, more in thorough)
+-D_GLIBCXX_ASSERTIONS (tier quick and thorough) and with AddressSanitizer + UBSan + -fsanitize=float-cast-overflow (a subset in quick, more in thorough)
 and driven through the normal Python API in sandboxed children over degenerate shapes (size-1 grids, periodic axes of
 length 1-2, isolated nodes, self-loops, parallel edges), all policies incl. empty request lists and empty tails, all
 processing modes, coarse time steps (overshoot to negative amounts), repeated output fetches with sampling in between,
@@ -228,6 +228,10 @@ def explore(ctx, n, n_asan, p_degenerate=0.6, tag="m", with_model=True, p_coarse
               "max_steps": 40 if option != "gillespie" else 12, "space_kind": ["grid", "graph"][(i // 12) % 2],
               # every fifth job: 1-2 species with more directed reactions than 6 * n_species (sizes in n_reactions vs n_species vs slots)
               "many_reactions": (i % 5 == 4)}
+        if i % 24 in (2, 13):
+            # on_interval with t / sampling_interval beyond 2^31 (a few steps of 1 s, interval around 1 ns); always in the sanitizer subset
+            kw.update(huge_ratio=True, policy="on_interval")
+            coarse = False
         jobs.append(make_job(rng, "%s%d" % (tag, i), option, coarse=coarse, dup=(rng.random() < 0.4), **kw))
     # the sanitizer subset: first one job per (engine, space, processing mode), then jobs with repeated request times, then the rest
     first, rest = {}, []
@@ -237,8 +241,9 @@ def explore(ctx, n, n_asan, p_degenerate=0.6, tag="m", with_model=True, p_coarse
             first[key] = j
         else:
             rest.append(j)
-    rest.sort(key=lambda j: 0 if j["info"].get("duplicates") else 1)
-    asan_jobs = (list(first.values()) + rest)[:max(n_asan, len(first))]
+    rest.sort(key=lambda j: 0 if j["info"].get("huge_ratio") else (1 if j["info"].get("duplicates") else 2))
+    huge = [j for j in rest if j["info"].get("huge_ratio")][:6]
+    asan_jobs = (list(first.values()) + rest)[:max(n_asan, len(first) + len(huge))]
     ctx.count("asan_mode_engine_space_combinations", len(first))
     res = {}
     builds = [("plain", jobs), ("hard", jobs), ("asan", asan_jobs)]
@@ -251,6 +256,8 @@ def explore(ctx, n, n_asan, p_degenerate=0.6, tag="m", with_model=True, p_coarse
         for key in ("option", "policy", "style", "space", "mode"):
             ctx.count("%s_%s" % (key, info[key]))
         ctx.count("coarse" if info.get("coarse") else "fine")
+        if info.get("huge_ratio"):
+            ctx.count("interval_ratio_beyond_2^31_%s_%s" % (info["option"], info["space"]))
         if info.get("many_reactions"):
             ctx.count("many_reactions_%s_%s" % (info["option"], info["space"]))
         if info["n_directed_reactions"] > 6 * info["nsp"]:
